@@ -158,6 +158,11 @@ type Scenario struct {
 	AnnualTemp   float64
 	PotMin       int
 	PrecipCorr   bool
+	PrecoFactors [12]float64
+	// WeatherFault (C04): the weather input does not cover the whole simulation ("", ends_early, gap, missing_year, starts_late)
+	WeatherFault  string
+	FaultFrom     Date // first day without a record
+	FaultTo       Date // last day without a record
 	OutInterval  int
 	ResultFormat int // 0 hermes fixed width, 1 csv
 	ResultExt    string
@@ -533,6 +538,17 @@ func genWithProfile(prop string, seed uint64, idx int, r *Rng, p Profile) *Scena
 
 	// ---------------- weather ----------------
 	genWeather(sc, r, p)
+	if prop == "C04" {
+		if r.Bool(0.3) {
+			sc.PrecipCorr = true
+			for m := 0; m < 12; m++ {
+				sc.PrecoFactors[m] = float64(r.Range(90, 135)) / 100
+			}
+		}
+		if r.Bool(0.3) {
+			genWeatherFault(sc, r)
+		}
+	}
 
 	// ---------------- management ----------------
 	genRotation(sc, r, p)
@@ -831,6 +847,73 @@ func genWeather(sc *Scenario, r *Rng, p Profile) {
 			if w.Days[i-1].NoneVerd {
 				d.NoneVerd = false
 			}
+		}
+	}
+}
+
+// genWeatherFault removes records so that the weather input does not cover the whole simulation window.
+func genWeatherFault(sc *Scenario, r *Rng) {
+	w := &sc.Weather
+	s0, e0 := sc.Start.Zeit(), sc.End.Zeit()
+	if e0-s0 < 120 {
+		return
+	}
+	kind := pickS(r, []string{"ends_early", "gap", "missing_year", "starts_late"})
+	var from, to int
+	switch kind {
+	case "ends_early":
+		from = r.Range(s0+30, e0-30)
+		to = 1 << 30
+	case "gap":
+		from = r.Range(s0+30, e0-45)
+		to = from + r.Range(0, 40)
+		// keep the gap inside one calendar year and off its first/last day (a clean "missing days" case)
+		fy := DateOfZeit(from).Y
+		lo, hi := Date{fy, 1, 2}.Zeit(), Date{fy, 12, 30}.Zeit()
+		if from < lo {
+			from = lo
+		}
+		if to > hi {
+			to = hi
+		}
+		if to < from {
+			to = from
+		}
+	case "missing_year":
+		y := r.Range(sc.Start.Y+1, sc.End.Y)
+		if (Date{y, 12, 31}).Zeit() > e0 && y > sc.Start.Y+1 {
+			y--
+		}
+		from, to = Date{y, 1, 1}.Zeit(), Date{y, 12, 31}.Zeit()
+		if from > e0 {
+			return
+		}
+	case "starts_late":
+		from = 0
+		to = s0 + r.Range(0, 60)
+		if w.Layout == 0 {
+			// per-year files: the file of the start year begins later in the year
+			from = Date{sc.Start.Y, 1, 1}.Zeit()
+		}
+	}
+	var keep []WeatherDay
+	for _, d := range w.Days {
+		z := d.D.Zeit()
+		if z >= from && z <= to {
+			continue
+		}
+		keep = append(keep, d)
+	}
+	if len(keep) == len(w.Days) || len(keep) == 0 {
+		return
+	}
+	w.Days = keep
+	sc.WeatherFault = kind
+	sc.FaultFrom, sc.FaultTo = DateOfZeit(maxi(from, 1)), DateOfZeit(mini(to, e0+400))
+	// no sentinels next to the hole (a sentinel needs both neighbours)
+	for i := range w.Days {
+		if i == 0 || i == len(w.Days)-1 || w.Days[i-1].D.AddDays(1) != w.Days[i].D || w.Days[i].D.AddDays(1) != w.Days[i+1].D {
+			w.Days[i].NoneTavg, w.Days[i].NoneSun, w.Days[i].NoneVerd = false, false, false
 		}
 	}
 }
